@@ -130,6 +130,10 @@ def generate(tier, rng):
   else:
     ns = list(range(0, 13)) + [17, 24]
     reps = 24
+  # a low-precision loss dtype with many rows of one domain in a batch: the per-domain COUNTS must stay exact
+  yield {'kind': 'lowp', 'n': [700, 300, 0], 'geos': [[1024, 1], [64, 2], [512, 3]], 'dtype': 'bfloat16'}
+  if tier != 'quick':
+    yield {'kind': 'lowp', 'n': [2500, 0, 40], 'geos': [[4096, 1], [128, 1]], 'dtype': 'float16'}
   # algorithm-level cases first: the REAL mime / mime_lite / agnostic_federated_averaging for 2 rounds
   for rep in range({'quick': 1, 'search': 6}.get(tier, 4)):
     for pattern in ALGO_PATTERNS + ([] if tier == 'quick' else ALGO_PATTERNS_MORE):
@@ -232,6 +236,31 @@ def _materialise(case, geo, rows):
     b['__mask__'] = mask
     out.append(b)
   return out
+
+
+DELIVERY = ('list', 'view', 'generator', 'iter', 'map')
+
+
+def _deliver(batches, form, view):
+  """The same batches handed over as a list, the view object itself, a generator, iter(list) or a map object
+  (every entry point documents `Iterable[BatchExample]`; one-shot iterators must give the same result)."""
+  if form == 'view' and view is not None:
+    return view
+  if form == 'generator':
+    return (b for b in batches)
+  if form == 'iter':
+    return iter(batches)
+  if form == 'map':
+    return map(dict, batches)
+  return batches
+
+
+def _view(case, geo, rows):
+  if geo[0] == 'pb':
+    return _dataset(case, rows).padded_batch(batch_size=geo[1], num_batch_size_buckets=geo[2])
+  if geo[0] == 'plain':
+    return _dataset(case, rows).batch(batch_size=geo[1])
+  return None
 
 
 def _fl(x):
@@ -403,7 +432,29 @@ def _encode_algo(case, obs):
   return f'({fw.clist(items)}, tt)'
 
 
+def _run_lowp(case):
+  import fedjax
+  import jax
+  import jax.numpy as jnp
+  from fedjax.algorithms import agnostic_fed_avg
+  dt = getattr(jnp, case['dtype'])
+  key = ('lowp', case['dtype'])
+  if key not in _API:
+    _API[key] = agnostic_fed_avg.create_domain_metrics_for_each_client(
+        lambda params, batch, rng: (batch['x'] * params).astype(dt), ND, None)
+  dom = np.concatenate([np.full(k, d, np.int32) for d, k in enumerate(case['n'])])
+  ds = fedjax.ClientDataset({'x': np.ones(len(dom), np.float32), 'domain_id': dom})
+  out = []
+  for bs, nb in case['geos']:
+    shared = {'params': jnp.array(0.5, jnp.float32), 'alpha': jnp.array(ALPHA, jnp.float32)}
+    (_, dm), = list(_API[key](shared, [('c', ds.padded_batch(batch_size=bs, num_batch_size_buckets=nb), jax.random.PRNGKey(0))]))
+    out.append([float(v) for v in np.asarray(dm['domain_num'], dtype=np.float64)])
+  return {'domain_num': out}
+
+
 def run(case):
+  if case.get('kind') == 'lowp':
+    return _run_lowp(case)
   if case.get('kind') == 'algo':
     return _run_algo(case)
   import jax
@@ -416,8 +467,10 @@ def run(case):
   n = len(case['y'])
   allrows = list(range(n))
   obs = {'geos': []}
-  for geo in case['geos']:
+  for gi, geo in enumerate(case['geos']):
     batches = _materialise(case, geo, allrows)
+    view = _view(case, geo, allrows)
+    form = DELIVERY[gi % len(DELIVERY)]
     masked = geo[0] != 'plain'
     g = {'layout': _layout(batches), 'masked': masked}
     # A. per-batch gradients, padded and (first batches) unpadded
@@ -435,24 +488,32 @@ def run(case):
       g['grad_unpadded'].append(_vec(api['grad'](params, ub, rng)))
     g['mgrad'] = _vec(api['mgrad'](params, batches[0], rng)) if batches else None
     # C / D. average loss
-    g['avg'] = [_fl(models.evaluate_average_loss(params, batches, rng, api['pel'], api['regf']))]
-    g['avg'] += [_fl(v) for _, v in api['evaluator'].evaluate_global_params(params, [('c', batches, rng)])]
-    g['avg'] += [_fl(v) for _, v in api['evaluator'].evaluate_per_client_params([('c', batches, rng, params)])]
+    g['avg_forms'] = {}
+    for f in DELIVERY:
+      vals = [_fl(models.evaluate_average_loss(params, _deliver(batches, f, view), rng, api['pel'], api['regf']))]
+      vals += [_fl(v) for _, v in api['evaluator'].evaluate_global_params(params, [('c', _deliver(batches, f, view), rng)])]
+      vals += [_fl(v) for _, v in api['evaluator'].evaluate_per_client_params([('c', _deliver(batches, f, view), rng, params)])]
+      g['avg_forms'][f] = vals
+    g['avg'] = g['avg_forms']['list']
+    g['delivery'] = form
     # E / F need the mask key
     if masked:
       if geo[0] == 'pb':
         s = case['split']
         client_rows = [allrows[:s], allrows[s:]]
         client_batches = [_materialise(case, geo, r) for r in client_rows]
+        client_views = [_view(case, geo, r) for r in client_rows]
       else:
         client_batches = [batches]
-      outs = list(api['mime'](params, [(i, cb, rng) for i, cb in enumerate(client_batches)]))
+        client_views = [None]
+      outs = list(api['mime'](params, [(i, _deliver(cb, form, cv), rng)
+                                        for i, (cb, cv) in enumerate(zip(client_batches, client_views))]))
       g['mime_layout'] = [_layout(cb) for cb in client_batches]
       g['mime_clients'] = [_vec(gs) + [_fl(num)] for _, (gs, num) in outs]
       gsum, nsum = tree_util.tree_sum(co for _, co in outs)
       g['mime_server'] = _vec(tree_util.tree_inverse_weight(gsum, nsum))
       shared = {'params': params, 'alpha': jnp.array(ALPHA, jnp.float32)}
-      (_, dm), = list(api['domain'](shared, [('c', batches, rng)]))
+      (_, dm), = list(api['domain'](shared, [('c', _deliver(batches, form, view), rng)]))
       g['domain'] = {'loss': [float(v) for v in np.asarray(dm['domain_loss'])],
                      'num': [float(v) for v in np.asarray(dm['domain_num'])], 'beta': _fl(dm['beta'])}
     # G. HypCluster per-cluster average losses (geometry through PaddedBatchHParams only)
@@ -492,6 +553,10 @@ def _mean_rows(vals, rows, zero):
 
 
 def oracle(case, obs):
+  if case.get('kind') == 'lowp':
+    return [('agnostic.domain-num.low-precision-loss',
+             f'domain_num {dn} under padded batch {geo} with a {case["dtype"]} loss; real counts {case["n"]}')
+            for geo, dn in zip(case['geos'], obs['domain_num']) if dn != [float(k) for k in case['n']]][:1]
   if case.get('kind') == 'algo':
     return _oracle_algo(case, obs)
   out = []
@@ -533,6 +598,10 @@ def oracle(case, obs):
         add('avg-loss.empty' if n == 0 else f'avg-loss.closed-form.{name}', f'{tag}: {name} = {v}, closed form {exp_avg}')
       if not _near(v, obs['geos'][0]['avg'][0]):
         add('avg-loss.geometry', f'{name} under {geo[:1] + geo[1:3] if tag != "hand" else "hand"} = {v}, under the first geometry {obs["geos"][0]["avg"][0]}')
+    for f, vals in g['avg_forms'].items():
+      for name, v in zip(('evaluate_average_loss', 'evaluator.global', 'evaluator.per-client'), vals):
+        if not _near(v, exp_avg) or not _near(v, g['avg'][0]):
+          add(f'avg-loss.delivery.{name}', f'{tag}: {name} with the batches delivered as {f} = {v}; as a list {g["avg"][0]}, closed form {exp_avg}')
     if 'mime_server' in g:
       if not all(_near(a, b) for a, b in zip(g['mime_server'], exp_full)):
         add('mime.fullbatch-grad' if n else 'mime.fullbatch-grad.empty', f'{tag}: full-batch gradient {g["mime_server"]}, closed form {exp_full.tolist()}')
@@ -607,6 +676,8 @@ def _mask(cells):
 
 
 def encode(case, obs):
+  if case.get('kind') == 'lowp':
+    return None
   if case.get('kind') == 'algo':
     return _encode_algo(case, obs)
   real, row, r, dr = _exact(case)
@@ -653,7 +724,7 @@ def encode(case, obs):
 
 
 def nontrivial(case, obs):
-  if case.get('kind') == 'algo':
+  if case.get('kind') in ('algo', 'lowp'):
     return True
   for g in obs['geos']:
     cells = [c for b in g['layout'] for c in b]
@@ -663,6 +734,8 @@ def nontrivial(case, obs):
 
 
 def describe(case, obs):
+  if case.get('kind') == 'lowp':
+    return {'lowp_dtype': case['dtype']}
   if case.get('kind') == 'algo':
     return {'algo_pattern': case['pattern'], 'reg': case['reg']}
   n = len(case['y'])
@@ -674,6 +747,8 @@ def describe(case, obs):
 
 
 def shrink(case):
+  if case.get('kind') == 'lowp':
+    return
   if case.get('kind') == 'algo':
     if len(case['rounds']) > 1:
       yield {**case, 'rounds': case['rounds'][:1]}
